@@ -115,12 +115,24 @@ Section Printer.
                     | DPipe n => B " PIPE " ++ n
                     end.
 
-  (* Truncate.makeString: BEFORE is quoted twice (DateTime.String() already quotes), MAXDBSIZE is not printed *)
-  Definition pr_truncate (t : truncate) : bytes :=
+  (* addSizeIfNotEmpty: strconv.FormatUint(uint64(size), 10) *)
+  Definition pr_kw_size (kw : string) (v : option N) : bytes :=
+    match v with Some n => sp :: B kw ++ sp :: pr_N n | None => [] end.
+
+  (* Truncate.makeString. Variant [old = true] is the printer before the repair: BEFORE quoted twice
+     (DateTime.String() already quotes, addStringIfNotEmpty quoted again), MAXDBSIZE not printed, sizes
+     through int64(). The code's printer ([code_truncate_old_printer] below) writes every clause once. *)
+  Definition pr_truncate_v (old : bool) (t : truncate) : bytes :=
     B "TRUNCATE" ++ (if tr_dryrun t then B " DRYRUN" else []) ++ pr_osource (tr_source t) ++
-    pr_kw_int "MINSIZE" (option_map as_int64 (tr_min t)) ++
-    pr_kw_int "MAXSIZE" (option_map as_int64 (tr_max t)) ++
-    match tr_before t with Some b => pr_kw_str "BEFORE" (Some (pr_time b)) | None => [] end.
+    if old then
+      pr_kw_int "MINSIZE" (option_map as_int64 (tr_min t)) ++
+      pr_kw_int "MAXSIZE" (option_map as_int64 (tr_max t)) ++
+      match tr_before t with Some b => pr_kw_str "BEFORE" (Some (pr_time b)) | None => [] end
+    else
+      pr_kw_size "MINSIZE" (tr_min t) ++
+      pr_kw_size "MAXSIZE" (tr_max t) ++
+      match tr_before t with Some b => B " BEFORE " ++ pr_time b | None => [] end ++
+      pr_kw_size "MAXDBSIZE" (tr_maxdb t).
 
   Definition pr_show (s : show) : bytes :=
     B "SHOW" ++
@@ -138,17 +150,24 @@ Section Printer.
     match pi_from p with Some s => B " FROM" ++ pr_source s | None => [] end ++
     match pi_where p with Some e => B " WHERE" ++ pr_expr e | None => [] end.
 
-  Definition pr_lql (l : lql) : bytes :=
+  Definition pr_lql_v (old_truncate : bool) (l : lql) : bytes :=
     match l with
     | LNone => []
     | LSelect s => pr_select s
     | LDescribe d => pr_describe d
-    | LTruncate t => pr_truncate t
+    | LTruncate t => pr_truncate_v old_truncate t
     | LShow s => pr_show s
     | LCreate p => B "CREATE" ++ match p with Some p => pr_pipe p | None => [] end
     | LDelete n => B " DELETE" ++ match n with Some n => B " PIPE " ++ n | None => [] end
     end.
 End Printer.
+
+(* the variant of the code: the repaired TRUNCATE printer *)
+Definition code_truncate_old_printer : bool := false.
+Definition pr_truncate (quote : bytes -> bytes) (tags_line : tagset -> bytes) (fmt_time : Z -> bytes) : truncate -> bytes :=
+  pr_truncate_v quote tags_line fmt_time code_truncate_old_printer.
+Definition pr_lql (quote : bytes -> bytes) (tags_line : tagset -> bytes) (fmt_time : Z -> bytes) : lql -> bytes :=
+  pr_lql_v quote tags_line fmt_time code_truncate_old_printer.
 
 (* ---- the token image of the expression printers ---- *)
 Definition is_keyword_text (s : bytes) : bool := existsb (fun kw => fold_eq s kw) keywords.
@@ -260,13 +279,14 @@ Section StmtTokens.
     | None => []
     end.
 
-  (* BEFORE: the value is quoted twice, so the String token holds the quoted time text; `quote` is needed here *)
-  Variable quote : bytes -> bytes.
+  (* sizes are printed in decimal; BEFORE holds the time text (quoted once, so the String token is the text itself) *)
+  Definition size_tok (n : N) : token := Tok TNumber (pr_N n).
   Definition tk_truncate (t : truncate) : list token :=
     kw_tok "TRUNCATE" :: (if tr_dryrun t then [kw_tok "DRYRUN"] else []) ++ tk_osource (tr_source t) ++
-    tk_clause "MINSIZE" (fun n => [num_tok (as_int64 n)]) (tr_min t) ++
-    tk_clause "MAXSIZE" (fun n => [num_tok (as_int64 n)]) (tr_max t) ++
-    tk_clause "BEFORE" (fun b => [str_tok (quote (fmt_time b))]) (tr_before t).
+    tk_clause "MINSIZE" (fun n => [size_tok n]) (tr_min t) ++
+    tk_clause "MAXSIZE" (fun n => [size_tok n]) (tr_max t) ++
+    tk_clause "BEFORE" (fun b => [str_tok (fmt_time b)]) (tr_before t) ++
+    tk_clause "MAXDBSIZE" (fun n => [size_tok n]) (tr_maxdb t).
 
   Definition tk_lql (l : lql) : list token :=
     match l with
